@@ -309,7 +309,14 @@ class Ref(object):
                 if b not in below:
                     below.add(b)
                     todo.append(b)
+        compid = {}
+        for k, c in enumerate(comp):
+            for a in c:
+                compid[a] = k
         for h, pos, neg, ci in rules:
+            if neg and h in on_cycle and any(b in on_cycle and compid[b] == compid[h] for b in pos):
+                # a rule that is itself an edge of a positive cycle and also carries a negative literal
+                tags.add("neg_sibling_on_cycle")
             for b in neg:
                 if b in reach:
                     tags.add("neg_over_recursive")
